@@ -32,14 +32,18 @@ THEOREM_BACKED = ('DracoProps.C09: seq_counts_mesh_connectivity / seq_counts_mes
                   'off its corner table, under the table invariants APHyp), eb_decoded_points_encoder_formula (= sum of the'
                   " encoder's per-vertex formula over the same fans, under H2), eb_points_refine_vertices, "
                   'eb_encoded_points_fans (ComputeNumberOfEncodedPoints = (vertices - isolated) + sum over the fans of the '
-                  "encoder's table, given ClosedOK). Cited: C01.seq_counts, C01Kd.pointcloud_kd_roundtrip (counts on "
-                  'encoder-model outputs), C01Eb.eb_encoded_counts_partial; proof library only: '
+                  "encoder's table, given ClosedOK), eb_encoded_faces (UNCONDITIONAL: reported faces = processed faces = "
+                  'every non-degenerate face; traversal completeness encodeConnectivity_coverage / _size), '
+                  "eb_encoded_points_eq_decoded_of_run / _single_of_run (nothing assumed about the encoder's table), "
+                  'eb_encoded_counts_of_link / _single (reported points and faces = decoded, from the connectivity link, '
+                  'SeamLink and the decoder-side facts APHyp / hhole). Cited: C01.seq_counts, C01Kd.pointcloud_kd_roundtrip'
+                  ' (counts on encoder-model outputs), C01Eb.eb_encoded_counts_partial; proof library only: '
                   'EbCountsIso.eb_encoded_points_eq_decoded, EbEncCounts.encodeConnectivity_faces')
-CORRESPONDENCE_ONLY = ("Edgebreaker: that the encoder's fans are the images of the decoder's (isomorphism of the tables) and "
-                       'that the traversal reaches every non-degenerate face (processed.size = num_faces - NumDegeneratedFaces, '
-                       'i.e. ComputeNumberOfEncodedFaces) are evaluated per ebenc case of C01 (iso-ok, coverage, counts-ok) and '
-                       'covered here by the oracle on the real outputs; the dedicated families of this check run on the '
-                       'implementation only (model:none)')
+CORRESPONDENCE_ONLY = ('Edgebreaker: the connectivity link (isomorphism of the two tables; proved in C01Eb for runs without S '
+                       'symbols and without attribute data) and the decoder-side facts APHyp / hhole are hypotheses of '
+                       'eb_encoded_counts_of_link, evaluated per ebenc case of C01 (iso-ok, counts-ok) and covered here by the '
+                       'oracle on the real outputs; the dedicated families of this check run on the implementation only '
+                       '(model:none)')
 EXPLANATION = ('the per-fan theorem is about an abstract model of the two counting procedures (one vertex at a time); '
                "C09Eb derives both sides' totals from their corner-table models as sums over fans read off the tables; "
                'the link between the two tables is tied to the code through the oracle (reported == decoded) on '
